@@ -699,7 +699,8 @@ class Stack(object):
         """startup[side](llc) is called from on-startup (bind servers), connected[side](llc, spawn)
         from on-connect (start application threads with spawn(name, fn))"""
         s = self.sched
-        with Patches(s, self.seed, self.events):
+        with Patches(s, self.seed, self.events) as patches:
+            self.discards = patches.lost        # id(socket) -> I PDUs dropped by a full receive queue
             for side in "IT":
                 clf = nfc.ContactlessFrontend()
                 clf.device = AirDevice(self.air, side, self.comm)
